@@ -1,4 +1,5 @@
-// C18 correspondence harness: the same WASI-only guest scripts are run under the DEFAULT module configuration in
+// C18 correspondence harness: the same WASI-only guest scripts (over all 46 functions of wasi_snapshot_preview1, on open,
+// closed and never-opened descriptors, ending in proc_exit or not) are run under the DEFAULT module configuration in
 // SEPARATE child processes (this binary re-executes itself) that differ in environment variables, working
 // directory, argv, start time (>= 1 s apart) and engine; one child additionally runs two instances of every script
 // interleaved call by call in one runtime. Every child prints, per script, the complete trace (WASI errno and the
@@ -20,34 +21,73 @@ import (
 	"github.com/tetratelabs/wazero/api"
 	"github.com/tetratelabs/wazero/imports/wasi_snapshot_preview1"
 	c "github.com/tetratelabs/wazero/internal/zz_verif/common"
+	"github.com/tetratelabs/wazero/sys"
 )
 
 type wf struct {
 	name   string
 	params []byte
+	noRes  bool
 }
 
+// every function of wasi_snapshot_preview1
 var wasiFuncs = []wf{
-	{"args_get", c.B(c.I32, c.I32)},
-	{"args_sizes_get", c.B(c.I32, c.I32)},
-	{"environ_get", c.B(c.I32, c.I32)},
-	{"environ_sizes_get", c.B(c.I32, c.I32)},
-	{"clock_res_get", c.B(c.I32, c.I32)},
-	{"clock_time_get", c.B(c.I32, c.I64, c.I32)},
-	{"random_get", c.B(c.I32, c.I32)},
-	{"fd_read", c.B(c.I32, c.I32, c.I32, c.I32)},
-	{"fd_write", c.B(c.I32, c.I32, c.I32, c.I32)},
-	{"fd_prestat_get", c.B(c.I32, c.I32)},
-	{"fd_fdstat_get", c.B(c.I32, c.I32)},
-	{"poll_oneoff", c.B(c.I32, c.I32, c.I32, c.I32)},
-	{"sched_yield", nil},
-	{"path_open", c.B(c.I32, c.I32, c.I32, c.I32, c.I32, c.I64, c.I64, c.I32, c.I32)},
+	{"args_get", c.B(c.I32, c.I32), false},
+	{"args_sizes_get", c.B(c.I32, c.I32), false},
+	{"environ_get", c.B(c.I32, c.I32), false},
+	{"environ_sizes_get", c.B(c.I32, c.I32), false},
+	{"clock_res_get", c.B(c.I32, c.I32), false},
+	{"clock_time_get", c.B(c.I32, c.I64, c.I32), false},
+	{"fd_advise", c.B(c.I32, c.I64, c.I64, c.I32), false},
+	{"fd_allocate", c.B(c.I32, c.I64, c.I64), false},
+	{"fd_close", c.B(c.I32), false},
+	{"fd_datasync", c.B(c.I32), false},
+	{"fd_fdstat_get", c.B(c.I32, c.I32), false},
+	{"fd_fdstat_set_flags", c.B(c.I32, c.I32), false},
+	{"fd_fdstat_set_rights", c.B(c.I32, c.I64, c.I64), false},
+	{"fd_filestat_get", c.B(c.I32, c.I32), false},
+	{"fd_filestat_set_size", c.B(c.I32, c.I64), false},
+	{"fd_filestat_set_times", c.B(c.I32, c.I64, c.I64, c.I32), false},
+	{"fd_pread", c.B(c.I32, c.I32, c.I32, c.I64, c.I32), false},
+	{"fd_prestat_get", c.B(c.I32, c.I32), false},
+	{"fd_prestat_dir_name", c.B(c.I32, c.I32, c.I32), false},
+	{"fd_pwrite", c.B(c.I32, c.I32, c.I32, c.I64, c.I32), false},
+	{"fd_read", c.B(c.I32, c.I32, c.I32, c.I32), false},
+	{"fd_readdir", c.B(c.I32, c.I32, c.I32, c.I64, c.I32), false},
+	{"fd_renumber", c.B(c.I32, c.I32), false},
+	{"fd_seek", c.B(c.I32, c.I64, c.I32, c.I32), false},
+	{"fd_sync", c.B(c.I32), false},
+	{"fd_tell", c.B(c.I32, c.I32), false},
+	{"fd_write", c.B(c.I32, c.I32, c.I32, c.I32), false},
+	{"path_create_directory", c.B(c.I32, c.I32, c.I32), false},
+	{"path_filestat_get", c.B(c.I32, c.I32, c.I32, c.I32, c.I32), false},
+	{"path_filestat_set_times", c.B(c.I32, c.I32, c.I32, c.I32, c.I64, c.I64, c.I32), false},
+	{"path_link", c.B(c.I32, c.I32, c.I32, c.I32, c.I32, c.I32, c.I32), false},
+	{"path_open", c.B(c.I32, c.I32, c.I32, c.I32, c.I32, c.I64, c.I64, c.I32, c.I32), false},
+	{"path_readlink", c.B(c.I32, c.I32, c.I32, c.I32, c.I32, c.I32), false},
+	{"path_remove_directory", c.B(c.I32, c.I32, c.I32), false},
+	{"path_rename", c.B(c.I32, c.I32, c.I32, c.I32, c.I32, c.I32), false},
+	{"path_symlink", c.B(c.I32, c.I32, c.I32, c.I32, c.I32), false},
+	{"path_unlink_file", c.B(c.I32, c.I32, c.I32), false},
+	{"poll_oneoff", c.B(c.I32, c.I32, c.I32, c.I32), false},
+	{"proc_exit", c.B(c.I32), true},
+	{"proc_raise", c.B(c.I32), false},
+	{"sched_yield", nil, false},
+	{"random_get", c.B(c.I32, c.I32), false},
+	{"sock_accept", c.B(c.I32, c.I32, c.I32), false},
+	{"sock_recv", c.B(c.I32, c.I32, c.I32, c.I32, c.I32, c.I32), false},
+	{"sock_send", c.B(c.I32, c.I32, c.I32, c.I32, c.I32), false},
+	{"sock_shutdown", c.B(c.I32, c.I32), false},
 }
 
 func proxy() []byte {
 	m := &c.Mod{}
 	for i, f := range wasiFuncs {
-		m.Types = append(m.Types, c.FT(f.params, c.B(c.I32)))
+		res := c.B(c.I32)
+		if f.noRes {
+			res = nil
+		}
+		m.Types = append(m.Types, c.FT(f.params, res))
 		m.Imports = append(m.Imports, c.ImportFunc("wasi_snapshot_preview1", f.name, uint32(i)))
 		m.Funcs = append(m.Funcs, c.U32(uint32(i)))
 		var body [][]byte
@@ -66,47 +106,155 @@ func proxy() []byte {
 // ---- scripts: every choice derives from the seed, so parent and children agree without passing them around ----
 func pick[T any](r *c.Rng, xs []T) T { return xs[r.Intn(len(xs))] }
 
+func bytesOf(s string) []any {
+	o := make([]any, len(s))
+	for i := range s {
+		o[i] = uint64(s[i])
+	}
+	return o
+}
+
+var somePaths = []string{"", "x", ".", "..", "a/b", "a/../..", "a/../b", "/", "/x", "./x", "a//b", "../x", "a/./b/../../c", "x/", "a/b/../../../c",
+	"...", "a/...", "..a", "a/..b/..", "./", "//", "a/", "a/../", "a/../../", "./../x", "stdin", "dev/null"}
+
+func genPath(r *c.Rng) []any {
+	if r.Intn(3) > 0 {
+		return bytesOf(pick(r, somePaths))
+	}
+	n := r.Intn(9)
+	b := make([]byte, n)
+	for i := range b {
+		b[i] = pick(r, []byte{'a', '.', '.', '/', '/', 'b', ' ', 0, '~'})
+	}
+	return bytesOf(string(b))
+}
+
+func genLens(r *c.Rng) []any {
+	n := pick(r, []int{0, 1, 1, 1, 2, 3})
+	o := make([]any, n)
+	for i := range o {
+		o[i] = pick(r, []uint64{0, 0, 1, 4, 16})
+	}
+	return o
+}
+
+func genChunks(r *c.Rng) []any {
+	n := pick(r, []int{0, 1, 1, 1, 2, 3})
+	o := make([]any, n)
+	for i := range o {
+		d := make([]any, pick(r, []int{0, 0, 1, 3, 8}))
+		for j := range d {
+			d[j] = uint64(r.Intn(256))
+		}
+		o[i] = d
+	}
+	return o
+}
+
 func genScript(r *c.Rng) [][]any {
 	n := 12 + r.Intn(28)
 	var calls [][]any
 	fd := func() uint64 {
-		if r.Intn(6) == 0 {
-			return pick(r, []uint64{99, 1 << 31, 0xffffffff, 1<<32 + 1})
-		}
-		return uint64(r.Intn(11))
-	}
-	for i := 0; i < n; i++ {
-		switch k := r.Intn(27); {
-		case k >= 24:
-			calls = append(calls, genPoll(r))
+		switch k := r.Intn(10); {
 		case k < 6:
-			calls = append(calls, []any{"clock_time_get", pick(r, []uint64{0, 0, 0, 1, 1, 1, 2, 3, 99, 1 << 32}), pick(r, []uint64{0, 1, 1000, r.U64()})})
+			return uint64(r.Intn(3))
 		case k < 8:
-			calls = append(calls, []any{"clock_res_get", pick(r, []uint64{0, 1, 2, 3, 77})})
-		case k < 12:
-			calls = append(calls, []any{"random_get", pick(r, []uint64{0, 1, 3, 7, 8, 16, 33})})
-		case k == 12:
-			calls = append(calls, []any{pick(r, []string{"args_sizes_get", "environ_sizes_get"})})
-		case k == 13:
-			calls = append(calls, []any{pick(r, []string{"args_get", "environ_get"})})
-		case k < 16:
-			calls = append(calls, []any{"fd_read", fd(), pick(r, []uint64{1, 4, 16})})
+			return uint64(3 + r.Intn(8))
+		}
+		return pick(r, []uint64{99, 1 << 31, 0xffffffff, 1<<32 + 1, 1 << 32, 0xfffffffe, 64, 1<<32 + 2})
+	}
+	i64 := func() uint64 { return pick(r, []uint64{0, 0, 1, 7, 1 << 31, 1<<63 - 1, 1 << 63, ^uint64(0), r.U64()}) }
+	add := func(x ...any) { calls = append(calls, x) }
+	exited := false
+	for i := 0; i < n; i++ {
+		switch k := r.Intn(80); {
+		case k < 6:
+			add("clock_time_get", pick(r, []uint64{0, 0, 0, 1, 1, 1, 2, 3, 99, 1 << 32}), pick(r, []uint64{0, 1, 1000, r.U64()}))
+		case k < 8:
+			add("clock_res_get", pick(r, []uint64{0, 1, 2, 3, 77, 1 << 32, 1<<32 + 1}))
+		case k < 11:
+			add("random_get", pick(r, []uint64{0, 1, 3, 7, 8, 16, 33}))
+		case k == 11:
+			add(pick(r, []string{"args_sizes_get", "environ_sizes_get", "args_get", "environ_get"}))
+		case k < 15:
+			add("fd_read", fd(), genLens(r))
 		case k < 18:
-			d := make([]any, 1+r.Intn(8))
-			for j := range d {
-				d[j] = uint64(r.Intn(256))
-			}
-			calls = append(calls, []any{"fd_write", fd(), d})
-		case k == 18:
-			calls = append(calls, []any{"fd_prestat_get", fd()})
-		case k == 19:
-			calls = append(calls, []any{"fd_fdstat_get", fd()})
+			add("fd_write", fd(), genChunks(r))
+		case k < 20:
+			add("fd_pread", fd(), genLens(r), i64())
 		case k < 22:
-			calls = append(calls, []any{"poll_clock", uint64(r.Intn(2)), pick(r, []uint64{0, 1000, 5_000_000, 300_000_000, 1_000_000_000}), pick(r, []uint64{0, 0, 0, 0, 1, 2, 3}), r.U64()})
+			add("fd_pwrite", fd(), genChunks(r), i64())
 		case k == 22:
-			calls = append(calls, []any{"sched_yield"})
+			add("fd_prestat_get", fd())
+		case k == 23:
+			add("fd_prestat_dir_name", fd(), pick(r, []uint64{0, 0, 1, 5, 1 << 32, 1<<32 + 1}))
+		case k < 26:
+			add("fd_fdstat_get", fd())
+		case k == 26:
+			add("fd_fdstat_set_flags", fd(), pick(r, []uint64{0, 1, 4, 5, 2, 8, 16, 31, 1 << 16, 1<<16 + 2, uint64(r.Intn(32))}))
+		case k == 27:
+			add("fd_fdstat_set_rights", fd(), i64(), i64())
+		case k < 31:
+			add("fd_filestat_get", fd())
+		case k == 31:
+			add("fd_filestat_set_size", fd(), i64())
+		case k < 35:
+			add("fd_filestat_set_times", fd(), i64(), i64(), pick(r, []uint64{0, 1, 2, 2, 3, 4, 8, 8, 10, 12, 5, 6, 9, 15, 1 << 16, 1<<16 + 2, uint64(r.Intn(16))}))
+		case k == 35:
+			add("fd_advise", fd(), i64(), i64(), pick(r, []uint64{0, 1, 5, 6, 255, 256, 261, uint64(r.Intn(8))}))
+		case k == 36:
+			add("fd_allocate", fd(), i64(), i64())
+		case k < 43:
+			add("fd_close", fd())
+		case k == 43:
+			add(pick(r, []string{"fd_datasync", "fd_sync"}), fd())
+		case k == 44:
+			add("fd_readdir", fd(), pick(r, []uint64{0, 23, 24, 100, 1 << 32, 1<<32 + 24}), i64())
+		case k < 47:
+			add("fd_renumber", fd(), fd())
+		case k == 47:
+			add("fd_seek", fd(), i64(), pick(r, []uint64{0, 1, 2, 3, 99}))
+		case k == 48:
+			add("fd_tell", fd())
+		case k < 52:
+			add("poll_clock", uint64(r.Intn(2)), pick(r, []uint64{0, 1000, 5_000_000, 300_000_000, 1_000_000_000}), pick(r, []uint64{0, 0, 0, 0, 1, 2, 3}), r.U64())
+		case k < 57:
+			calls = append(calls, genPoll(r))
+		case k == 57:
+			add("sched_yield")
+		case k < 60:
+			add("path_open", fd(), genPath(r), uint64(r.Intn(2)), uint64(r.Intn(16)), r.U64(), uint64(r.Intn(32)))
+		case k == 60:
+			add("path_create_directory", fd(), genPath(r))
+		case k < 63:
+			add("path_filestat_get", fd(), uint64(r.Intn(2)), genPath(r))
+		case k < 65:
+			add("path_filestat_set_times", fd(), uint64(r.Intn(2)), genPath(r), i64(), i64(), pick(r, []uint64{0, 1, 2, 2, 3, 4, 8, 8, 10, 12, 5, 6, 9, 15, uint64(r.Intn(16))}))
+		case k == 65:
+			add("path_link", fd(), uint64(r.Intn(2)), genPath(r), fd(), genPath(r))
+		case k == 66:
+			add("path_readlink", fd(), genPath(r), pick(r, []uint64{0, 1, 64, 1 << 32}))
+		case k == 67:
+			add(pick(r, []string{"path_remove_directory", "path_unlink_file"}), fd(), genPath(r))
+		case k == 68:
+			add("path_rename", fd(), genPath(r), fd(), genPath(r))
+		case k == 69:
+			add("path_symlink", genPath(r), fd(), genPath(r))
+		case k == 70:
+			add("proc_raise", pick(r, []uint64{0, 1, 9, 255}))
+		case k == 71:
+			add("sock_accept", fd(), pick(r, []uint64{0, 4}))
+		case k == 72:
+			add("sock_recv", fd(), genLens(r), pick(r, []uint64{0, 1, 2, 3, 4}))
+		case k == 73:
+			add("sock_send", fd(), genChunks(r), pick(r, []uint64{0, 0, 1, 1 << 32}))
+		case k == 74:
+			add("sock_shutdown", fd(), pick(r, []uint64{0, 1, 2, 3, 4}))
+		case k == 75 && !exited && i > n/2 && r.Intn(3) == 0:
+			exited = true
+			add("proc_exit", pick(r, []uint64{0, 1, 3, 255, 1 << 31, 0xffffffff, 1<<32 + 5}))
 		default:
-			calls = append(calls, []any{"path_open", pick(r, []uint64{0, 1, 3, 3, 4, 99})})
+			add("clock_time_get", uint64(r.Intn(2)), uint64(0))
 		}
 	}
 	return calls
@@ -138,6 +286,60 @@ func genPoll(r *c.Rng) []any {
 	return []any{"poll", subs}
 }
 
+// fdProbe: every descriptor-taking function once on descriptor fd
+func fdProbe(fd uint64) [][]any {
+	x := bytesOf("x")
+	return [][]any{
+		{"fd_prestat_get", fd}, {"fd_prestat_dir_name", fd, uint64(0)}, {"fd_prestat_dir_name", fd, uint64(5)},
+		{"fd_fdstat_get", fd}, {"fd_filestat_get", fd},
+		{"fd_read", fd, []any{uint64(8)}}, {"fd_read", fd, []any{uint64(0)}}, {"fd_read", fd, []any{}}, {"fd_read", fd, []any{uint64(0), uint64(4), uint64(4)}},
+		{"fd_write", fd, []any{[]any{uint64(104), uint64(105)}}}, {"fd_write", fd, []any{[]any{}}}, {"fd_write", fd, []any{}},
+		{"fd_write", fd, []any{[]any{uint64(1)}, []any{}, []any{uint64(2), uint64(3)}}},
+		{"fd_pread", fd, []any{uint64(8)}, uint64(0)}, {"fd_pread", fd, []any{uint64(0)}, uint64(3)}, {"fd_pread", fd, []any{}, uint64(1) << 63},
+		{"fd_pwrite", fd, []any{[]any{uint64(7)}}, uint64(0)}, {"fd_pwrite", fd, []any{[]any{}}, uint64(9)}, {"fd_pwrite", fd, []any{}, ^uint64(0)},
+		{"fd_fdstat_set_flags", fd, uint64(0)}, {"fd_fdstat_set_flags", fd, uint64(4)}, {"fd_fdstat_set_flags", fd, uint64(1)}, {"fd_fdstat_set_flags", fd, uint64(2)},
+		{"fd_fdstat_set_rights", fd, uint64(0), uint64(0)},
+		{"fd_filestat_set_size", fd, uint64(0)}, {"fd_filestat_set_size", fd, uint64(10)},
+		{"fd_filestat_set_times", fd, uint64(5), uint64(6), uint64(0)}, {"fd_filestat_set_times", fd, uint64(5), uint64(6), uint64(5)},
+		{"clock_time_get", uint64(0), uint64(0)},
+		{"fd_filestat_set_times", fd, uint64(5), uint64(6), uint64(2)}, {"clock_time_get", uint64(0), uint64(0)},
+		{"fd_filestat_set_times", fd, uint64(5), uint64(6), uint64(8)}, {"clock_time_get", uint64(0), uint64(0)},
+		{"fd_filestat_set_times", fd, uint64(5), uint64(6), uint64(10)}, {"clock_time_get", uint64(0), uint64(0)},
+		{"fd_filestat_set_times", fd, uint64(5), uint64(6), uint64(3)}, {"fd_filestat_set_times", fd, uint64(5), uint64(6), uint64(14)},
+		{"clock_time_get", uint64(0), uint64(0)}, {"clock_time_get", uint64(1), uint64(0)},
+		{"fd_advise", fd, uint64(0), uint64(0), uint64(0)}, {"fd_advise", fd, uint64(0), uint64(0), uint64(5)}, {"fd_advise", fd, uint64(0), uint64(0), uint64(6)},
+		{"fd_advise", fd, uint64(0), uint64(0), uint64(256)},
+		{"fd_allocate", fd, uint64(0), uint64(0)}, {"fd_allocate", fd, uint64(0), uint64(1)}, {"fd_allocate", fd, uint64(1) << 63, uint64(0)},
+		{"fd_allocate", fd, uint64(1) << 63, uint64(1) << 63}, {"fd_allocate", fd, uint64(1)<<63 - 1, uint64(1)},
+		{"fd_datasync", fd}, {"fd_sync", fd},
+		{"fd_readdir", fd, uint64(23), uint64(0)}, {"fd_readdir", fd, uint64(24), uint64(0)}, {"fd_readdir", fd, uint64(200), uint64(7)},
+		{"fd_renumber", fd, fd}, {"fd_renumber", fd, uint64(5)}, {"fd_renumber", fd, uint64(0)}, {"fd_renumber", fd, uint64(0xffffffff)}, {"fd_renumber", uint64(5), fd},
+		{"fd_seek", fd, uint64(0), uint64(0)}, {"fd_seek", fd, uint64(3), uint64(1)}, {"fd_seek", fd, uint64(0), uint64(9)}, {"fd_tell", fd},
+		{"poll", []any{[]any{"read", fd, uint64(1)}}}, {"poll", []any{[]any{"write", fd, uint64(2)}}},
+		{"poll", []any{[]any{"read", fd, uint64(1)}, []any{"clock", uint64(1000), uint64(0), uint64(3)}, []any{"read", uint64(2), uint64(4)}}},
+		{"path_open", fd, x, uint64(0), uint64(0), uint64(0), uint64(0)}, {"path_open", fd, bytesOf(".."), uint64(0), uint64(0), uint64(0), uint64(0)},
+		{"path_open", fd, bytesOf(""), uint64(1), uint64(1), uint64(64), uint64(1)},
+		{"path_create_directory", fd, x}, {"path_create_directory", fd, bytesOf("/x")},
+		{"path_filestat_get", fd, uint64(0), x}, {"path_filestat_get", fd, uint64(1), bytesOf(".")}, {"path_filestat_get", fd, uint64(1), bytesOf("a/../..")},
+		{"path_filestat_set_times", fd, uint64(0), x, uint64(1), uint64(2), uint64(0)}, {"path_filestat_set_times", fd, uint64(1), x, uint64(1), uint64(2), uint64(10)},
+		{"clock_time_get", uint64(0), uint64(0)},
+		{"path_filestat_set_times", fd, uint64(1), bytesOf(".."), uint64(1), uint64(2), uint64(2)}, {"path_filestat_set_times", fd, uint64(1), x, uint64(1), uint64(2), uint64(14)},
+		{"path_filestat_set_times", fd, uint64(1), x, uint64(1), uint64(2), uint64(3)},
+		{"clock_time_get", uint64(0), uint64(0)},
+		{"path_link", fd, uint64(0), x, fd, bytesOf("y")}, {"path_link", fd, uint64(0), x, uint64(7), bytesOf("..")}, {"path_link", uint64(7), uint64(0), x, fd, bytesOf("y")},
+		{"path_readlink", fd, x, uint64(64)}, {"path_readlink", fd, bytesOf(""), uint64(64)}, {"path_readlink", fd, x, uint64(0)}, {"path_readlink", fd, bytesOf("../x"), uint64(8)},
+		{"path_remove_directory", fd, x}, {"path_unlink_file", fd, x}, {"path_unlink_file", fd, bytesOf("a/b/../../../c")},
+		{"path_rename", fd, x, fd, bytesOf("y")}, {"path_rename", fd, bytesOf("/"), fd, bytesOf("y")},
+		{"path_symlink", x, fd, bytesOf("y")}, {"path_symlink", bytesOf(""), fd, bytesOf("..")},
+		{"sock_accept", fd, uint64(0)}, {"sock_accept", fd, uint64(4)},
+		{"sock_recv", fd, []any{uint64(8)}, uint64(0)}, {"sock_recv", fd, []any{uint64(8)}, uint64(1)}, {"sock_recv", fd, []any{uint64(8)}, uint64(4)},
+		{"sock_send", fd, []any{[]any{uint64(1)}}, uint64(0)}, {"sock_send", fd, []any{[]any{uint64(1)}}, uint64(1)},
+		{"sock_shutdown", fd, uint64(1)}, {"sock_shutdown", fd, uint64(3)}, {"sock_shutdown", fd, uint64(0)},
+	}
+}
+
+var probeFds = []uint64{0, 1, 2, 3, 7, 0xffffffff, 1 << 31, 1<<32 + 1}
+
 func fixedScript() [][]any {
 	var calls [][]any
 	for i := 0; i < 5; i++ {
@@ -149,7 +351,7 @@ func fixedScript() [][]any {
 		[]any{"args_sizes_get"}, []any{"args_get"}, []any{"environ_sizes_get"}, []any{"environ_get"},
 		[]any{"poll_clock", uint64(0), uint64(1_000_000_000), uint64(0), uint64(0x1122334455667788)},
 		[]any{"poll_clock", uint64(1), uint64(1_000_000_000), uint64(0), uint64(7)},
-		[]any{"sched_yield"},
+		[]any{"sched_yield"}, []any{"proc_raise", uint64(9)},
 		[]any{"clock_time_get", uint64(0), uint64(0)}, []any{"clock_time_get", uint64(1), uint64(0)},
 	)
 	// fd_read subscriptions on all three stdio descriptors (each is answered after the immediate ones), many times over
@@ -159,9 +361,30 @@ func fixedScript() [][]any {
 			[]any{"read", uint64(9), uint64(6)}}})
 	}
 	for fd := uint64(0); fd <= 10; fd++ {
-		calls = append(calls, []any{"fd_prestat_get", fd}, []any{"fd_fdstat_get", fd}, []any{"fd_read", fd, uint64(8)},
-			[]any{"fd_write", fd, []any{uint64(104), uint64(105)}}, []any{"path_open", fd})
+		calls = append(calls, []any{"fd_prestat_get", fd}, []any{"fd_fdstat_get", fd}, []any{"fd_read", fd, []any{uint64(8)}},
+			[]any{"fd_write", fd, []any{[]any{uint64(104), uint64(105)}}}, []any{"path_open", fd, bytesOf("x"), uint64(0), uint64(0), uint64(2), uint64(0)})
 	}
+	return calls
+}
+
+// tableScript: every descriptor function on open, closed and never-opened descriptors while the three stdio
+// descriptors are closed one after the other (stdout first, then stdin, then stderr), closing twice, then proc_exit
+func tableScript() [][]any {
+	var calls [][]any
+	probe := func() {
+		for _, fd := range probeFds {
+			calls = append(calls, fdProbe(fd)...)
+		}
+	}
+	probe()
+	for _, fd := range []uint64{1, 0, 1<<32 + 2} {
+		calls = append(calls, []any{"fd_close", fd})
+		probe()
+		calls = append(calls, []any{"fd_close", fd}, []any{"fd_close", uint64(9)}, []any{"fd_close", uint64(0xffffffff)})
+	}
+	calls = append(calls, []any{"clock_time_get", uint64(0), uint64(0)}, []any{"random_get", uint64(4)}, []any{"proc_exit", uint64(42)},
+		[]any{"clock_time_get", uint64(0), uint64(0)}, []any{"fd_close", uint64(2)}, []any{"random_get", uint64(4)}, []any{"proc_exit", uint64(1)},
+		[]any{"fd_write", uint64(1), []any{[]any{uint64(65)}}}, []any{"sched_yield"})
 	return calls
 }
 
@@ -176,18 +399,19 @@ func u(v any) uint64 {
 }
 
 type res struct {
-	E uint32 `json:"e"`
-	B []int  `json:"b"`
+	E int64 `json:"e"`
+	B []int `json:"b"`
 }
 
 const (
-	pA    = 256  // first result area
-	pB    = 264  // second result area
-	pIov  = 512  // iovec
-	pBuf  = 1024 // data buffer
-	pSub  = 2048 // poll subscription
-	pEvt  = 3072 // poll events
-	pPath = 4000
+	pA     = 256  // first result area
+	pB     = 264  // second result area
+	pIov   = 512  // iovecs
+	pBuf   = 1024 // data buffer
+	pSub   = 2048 // poll subscription
+	pEvt   = 3072 // poll events
+	pPath  = 4000
+	pPath2 = 4200
 )
 
 func ints(b []byte) []int {
@@ -198,14 +422,57 @@ func ints(b []byte) []int {
 	return o
 }
 
-func exec1(ctx context.Context, mod api.Module, call []any) res {
+type exited struct{ code uint32 }
+
+// exec1 runs one call; a call that ends in the instance's exit (proc_exit itself: -1; any call into an instance that
+// has exited: -2) reports the exit code as four little-endian bytes.
+func exec1(ctx context.Context, mod api.Module, call []any) (out res) {
+	defer func() {
+		if x := recover(); x != nil {
+			ex, ok := x.(exited)
+			if !ok {
+				panic(x)
+			}
+			b := make([]byte, 4)
+			binary.LittleEndian.PutUint32(b, ex.code)
+			out = res{-2, ints(b)}
+			if call[0].(string) == "proc_exit" && !isClosed[mod] {
+				out.E = -1
+			}
+			isClosed[mod] = true
+		}
+	}()
+	return exec0(ctx, mod, call)
+}
+
+var isClosed = map[api.Module]bool{}
+
+// runScript: the calls of one guest up to and including its proc_exit, if any (afterwards the guest no longer runs)
+func runScript(ctx context.Context, m api.Module, calls [][]any) []res {
+	var t []res
+	for _, cl := range calls {
+		if isClosed[m] {
+			break
+		}
+		t = append(t, exec1(ctx, m, cl))
+	}
+	return t
+}
+
+func exec0(ctx context.Context, mod api.Module, call []any) res {
 	mem := mod.Memory()
-	fn := func(name string, args ...uint64) uint32 {
+	fn := func(name string, args ...uint64) int64 {
 		r, err := mod.ExportedFunction(name).Call(ctx, args...)
 		if err != nil {
+			if ee, ok := err.(*sys.ExitError); ok {
+				panic(exited{ee.ExitCode()})
+			}
 			panic(fmt.Sprintf("%s trapped: %v", name, err))
 		}
-		return uint32(r[0])
+		if len(r) == 0 {
+			panic(name + " returned")
+		}
+		return int64(uint32(r[0]))
 	}
 	rd := func(off, n uint32) []int { b, _ := mem.Read(off, n); return ints(b) }
 	fill := func(off, n uint32) {
@@ -214,6 +481,44 @@ func exec1(ctx context.Context, mod api.Module, call []any) res {
 			b[i] = 0xaa
 		}
 	}
+	blob := func(v any) []byte {
+		d := v.([]any)
+		b := make([]byte, len(d))
+		for i := range d {
+			b[i] = byte(u(d[i]))
+		}
+		return b
+	}
+	// iovecs for buffers of the given lengths laid out one after the other in pBuf; returns their number and total
+	iovLens := func(v any) (uint64, uint32) {
+		ls := v.([]any)
+		off := uint32(pBuf)
+		for i, l := range ls {
+			mem.WriteUint32Le(pIov+uint32(8*i), off)
+			mem.WriteUint32Le(pIov+uint32(8*i)+4, uint32(u(l)))
+			off += uint32(u(l))
+		}
+		fill(pBuf, off-pBuf)
+		return uint64(len(ls)), off - pBuf
+	}
+	iovChunks := func(v any) uint64 {
+		cs := v.([]any)
+		off := uint32(pBuf)
+		for i, cv := range cs {
+			b := blob(cv)
+			mem.Write(off, b)
+			mem.WriteUint32Le(pIov+uint32(8*i), off)
+			mem.WriteUint32Le(pIov+uint32(8*i)+4, uint32(len(b)))
+			off += uint32(len(b))
+		}
+		return uint64(len(cs))
+	}
+	path := func(at uint32, v any) (uint64, uint64) {
+		b := blob(v)
+		mem.Write(at, b)
+		return uint64(at), uint64(len(b))
+	}
+	errOnly := func(e int64) res { return res{e, nil} }
 	name := call[0].(string)
 	switch name {
 	case "clock_time_get":
@@ -254,28 +559,39 @@ func exec1(ctx context.Context, mod api.Module, call []any) res {
 			return res{e, nil}
 		}
 		return res{0, rd(pBuf, size)}
-	case "fd_read":
-		n := uint32(u(call[2]))
-		mem.WriteUint32Le(pIov, pBuf)
-		mem.WriteUint32Le(pIov+4, n)
-		fill(pBuf, n)
-		fill(pA, 4)
-		if e := fn(name, u(call[1]), pIov, 1, pA); e != 0 {
+	case "fd_read", "fd_pread", "sock_recv":
+		n, _ := iovLens(call[2])
+		fill(pA, 16)
+		var e int64
+		switch name {
+		case "fd_read":
+			e = fn(name, u(call[1]), pIov, n, pA)
+		case "fd_pread":
+			e = fn(name, u(call[1]), pIov, n, u(call[3]), pA)
+		default:
+			e = fn(name, u(call[1]), pIov, n, u(call[3]), pA, pB)
+		}
+		if e != 0 {
 			return res{e, nil}
 		}
 		got, _ := mem.ReadUint32Le(pA)
-		return res{0, append(rd(pA, 4), rd(pBuf, got)...)}
-	case "fd_write":
-		d := call[2].([]any)
-		b := make([]byte, len(d))
-		for i := range d {
-			b[i] = byte(u(d[i]))
+		if got > 512 {
+			got = 512
 		}
-		mem.Write(pBuf, b)
-		mem.WriteUint32Le(pIov, pBuf)
-		mem.WriteUint32Le(pIov+4, uint32(len(b)))
+		return res{0, append(rd(pA, 4), rd(pBuf, got)...)}
+	case "fd_write", "fd_pwrite", "sock_send":
+		n := iovChunks(call[2])
 		fill(pA, 4)
-		if e := fn(name, u(call[1]), pIov, 1, pA); e != 0 {
+		var e int64
+		switch name {
+		case "fd_write":
+			e = fn(name, u(call[1]), pIov, n, pA)
+		case "fd_pwrite":
+			e = fn(name, u(call[1]), pIov, n, u(call[3]), pA)
+		default:
+			e = fn(name, u(call[1]), pIov, n, u(call[3]), pA)
+		}
+		if e != 0 {
 			return res{e, nil}
 		}
 		return res{0, rd(pA, 4)}
@@ -285,12 +601,63 @@ func exec1(ctx context.Context, mod api.Module, call []any) res {
 			return res{e, nil}
 		}
 		return res{0, rd(pA, 8)}
+	case "fd_prestat_dir_name":
+		n := uint32(u(call[2]))
+		if n > 512 {
+			n = 512
+		}
+		fill(pBuf, n)
+		if e := fn(name, u(call[1]), pBuf, u(call[2])); e != 0 {
+			return res{e, nil}
+		}
+		return res{0, rd(pBuf, n)}
 	case "fd_fdstat_get":
 		fill(pBuf, 24)
 		if e := fn(name, u(call[1]), pBuf); e != 0 {
 			return res{e, nil}
 		}
 		return res{0, rd(pBuf, 24)}
+	case "fd_filestat_get":
+		fill(pBuf, 64)
+		if e := fn(name, u(call[1]), pBuf); e != 0 {
+			return res{e, nil}
+		}
+		return res{0, rd(pBuf, 64)}
+	case "fd_fdstat_set_flags", "fd_filestat_set_size", "fd_renumber", "sock_shutdown":
+		return errOnly(fn(name, u(call[1]), u(call[2])))
+	case "fd_fdstat_set_rights", "fd_allocate":
+		return errOnly(fn(name, u(call[1]), u(call[2]), u(call[3])))
+	case "fd_filestat_set_times", "fd_advise":
+		return errOnly(fn(name, u(call[1]), u(call[2]), u(call[3]), u(call[4])))
+	case "fd_close", "fd_datasync", "fd_sync", "proc_raise":
+		return errOnly(fn(name, u(call[1])))
+	case "proc_exit":
+		fn(name, u(call[1]))
+		panic("proc_exit returned")
+	case "fd_readdir":
+		fill(pA, 4)
+		if e := fn(name, u(call[1]), pBuf, u(call[2]), u(call[3]), pA); e != 0 {
+			return res{e, nil}
+		}
+		return res{0, rd(pA, 4)}
+	case "fd_seek":
+		fill(pA, 8)
+		if e := fn(name, u(call[1]), u(call[2]), u(call[3]), pA); e != 0 {
+			return res{e, nil}
+		}
+		return res{0, rd(pA, 8)}
+	case "fd_tell":
+		fill(pA, 8)
+		if e := fn(name, u(call[1]), pA); e != 0 {
+			return res{e, nil}
+		}
+		return res{0, rd(pA, 8)}
+	case "sock_accept":
+		fill(pA, 4)
+		if e := fn(name, u(call[1]), u(call[2]), pA); e != 0 {
+			return res{e, nil}
+		}
+		return res{0, rd(pA, 4)}
 	case "poll_clock": // clockid timeout flags userdata
 		sub := make([]byte, 48)
 		binary.LittleEndian.PutUint64(sub[0:], u(call[4]))
@@ -340,9 +707,45 @@ func exec1(ctx context.Context, mod api.Module, call []any) res {
 		return res{0, append(rd(pA, 4), rd(pEvt, uint32(32*len(subs)))...)}
 	case "sched_yield":
 		return res{fn(name), nil}
-	case "path_open":
-		mem.Write(pPath, []byte("x"))
-		return res{fn(name, u(call[1]), 1, pPath, 1, 0, 2, 0, 0, pA), nil}
+	case "path_open": // fd path dirflags oflags rights fdflags
+		p, n := path(pPath, call[2])
+		fill(pA, 4)
+		if e := fn(name, u(call[1]), u(call[3]), p, n, u(call[4]), u(call[5]), 0, u(call[6]), pA); e != 0 {
+			return res{e, nil}
+		}
+		return res{0, rd(pA, 4)}
+	case "path_create_directory", "path_remove_directory", "path_unlink_file":
+		p, n := path(pPath, call[2])
+		return errOnly(fn(name, u(call[1]), p, n))
+	case "path_filestat_get":
+		p, n := path(pPath, call[3])
+		fill(pBuf, 64)
+		if e := fn(name, u(call[1]), u(call[2]), p, n, pBuf); e != 0 {
+			return res{e, nil}
+		}
+		return res{0, rd(pBuf, 64)}
+	case "path_filestat_set_times":
+		p, n := path(pPath, call[3])
+		return errOnly(fn(name, u(call[1]), u(call[2]), p, n, u(call[4]), u(call[5]), u(call[6])))
+	case "path_link":
+		p, n := path(pPath, call[3])
+		p2, n2 := path(pPath2, call[5])
+		return errOnly(fn(name, u(call[1]), u(call[2]), p, n, u(call[4]), p2, n2))
+	case "path_readlink":
+		p, n := path(pPath, call[2])
+		fill(pA, 4)
+		if e := fn(name, u(call[1]), p, n, pBuf, u(call[3]), pA); e != 0 {
+			return res{e, nil}
+		}
+		return res{0, rd(pA, 4)}
+	case "path_rename":
+		p, n := path(pPath, call[2])
+		p2, n2 := path(pPath2, call[4])
+		return errOnly(fn(name, u(call[1]), p, n, u(call[3]), p2, n2))
+	case "path_symlink":
+		p, n := path(pPath, call[1])
+		p2, n2 := path(pPath2, call[3])
+		return errOnly(fn(name, p, n, u(call[2]), p2, n2))
 	}
 	panic("unknown call " + name)
 }
@@ -370,7 +773,7 @@ type line struct {
 
 func scripts(seed uint64, n int) [][][]any {
 	rng := c.NewRng(seed)
-	out := [][][]any{fixedScript()}
+	out := [][][]any{fixedScript(), tableScript()}
 	for i := 0; i < n; i++ {
 		out = append(out, genScript(rng))
 	}
@@ -407,8 +810,13 @@ func child(seed uint64, n int, engine, mode, variant string) {
 			m1, m2 := inst(), inst()
 			var t1, t2 []res
 			for _, cl := range calls {
-				t1 = append(t1, exec1(ctx, m1, cl))
-				t2 = append(t2, exec1(ctx, m2, cl))
+				// a guest that has exited makes no further calls; the other instance goes on
+				if !isClosed[m1] {
+					t1 = append(t1, exec1(ctx, m1, cl))
+				}
+				if !isClosed[m2] {
+					t2 = append(t2, exec1(ctx, m2, cl))
+				}
 			}
 			el := time.Since(t0).Milliseconds()
 			out.Emit(line{T: "trace", Variant: variant + "1", Script: si, Trace: t1, Ms: el})
@@ -416,28 +824,19 @@ func child(seed uint64, n int, engine, mode, variant string) {
 			{
 				t3 := time.Now()
 				m3 := inst()
-				var tr3 []res
-				for _, cl := range calls {
-					tr3 = append(tr3, exec1(ctx, m3, cl))
-				}
+				tr3 := runScript(ctx, m3, calls)
 				out.Emit(line{T: "trace", Variant: variant + "3", Script: si, Trace: tr3, Ms: time.Since(t3).Milliseconds()})
 				t4 := time.Now()
 				m4, err := r.InstantiateWithConfig(ctx, bin, cfg.WithName(""))
 				if err != nil {
 					panic(err)
 				}
-				var tr4 []res
-				for _, cl := range calls {
-					tr4 = append(tr4, exec1(ctx, m4, cl))
-				}
+				tr4 := runScript(ctx, m4, calls)
 				out.Emit(line{T: "trace", Variant: variant + "4", Script: si, Trace: tr4, Ms: time.Since(t4).Milliseconds()})
 			}
 		} else {
 			m := inst()
-			var t []res
-			for _, cl := range calls {
-				t = append(t, exec1(ctx, m, cl))
-			}
+			t := runScript(ctx, m, calls)
 			out.Emit(line{T: "trace", Variant: variant, Script: si, Trace: t, Ms: time.Since(t0).Milliseconds()})
 		}
 		r.Close(ctx)
@@ -471,8 +870,8 @@ func main() {
 	exe, _ := os.Executable()
 	type variantT struct {
 		name, engine, mode, cwd string
-		env, extra             []string
-		delay                  time.Duration
+		env, extra              []string
+		delay                   time.Duration
 	}
 	big := []string{"PATH=/usr/bin:/bin", "HOME=/root", "LANG=de_DE.UTF-8", "TZ=Asia/Tokyo", "WAZERO_SECRET=hunter2", "FAKETIME=+5d"}
 	for i := 0; i < 40; i++ {
